@@ -910,9 +910,11 @@ package ircserver
 
 // A session and its wire form: every field of Session that is a plain value.
 //@ pred sessRepr(p *pb.Snapshot_Session, s *Session) = p.Id.Id == s.Id.Id && p.Id.Reply == s.Id.Reply && p.Auth == s.auth && (s.loggedIn <==> (p.LoggedIn == 1 || (p.LoggedIn == 0 && p.Nick != "" && p.Username != ""))) && p.Nick == s.Nick && p.Username == s.Username && p.Realname == s.Realname && s.LastActivity == tsTime(p.LastActivity) && s.LastNonPing == ite(tsTime(p.LastNonPing).IsZero(), tsTime(p.LastActivity), tsTime(p.LastNonPing)) && s.LastSolvedCaptcha == tsTime(p.LastSolvedCaptcha) && p.Operator == s.Operator && p.AwayMsg == s.AwayMsg && s.Created == ite(p.Created > 0, p.Created, p.Id.Id) && p.ThrottlingExponent == s.throttlingExponent && p.Svid == s.svid && p.Pass == s.Pass && p.Server == s.Server && p.LastClientMessageId == s.lastClientMessageId && p.IrcPrefix.Name == s.ircPrefix.Name && p.IrcPrefix.User == s.ircPrefix.User && p.IrcPrefix.Host == s.ircPrefix.Host && p.RemoteAddr == s.RemoteAddr
+// User modes: the letters that are set are exactly the first bytes of the strings in the wire form.
+//@ pred modesRepr(p *pb.Snapshot_Session, s *Session) = forall m int :: 0 <= m && m < 122 ==> (s.modes[m] <==> (exists j int :: 0 <= j && j < len(p.Modes) && p.Modes[j][0] == m))
 //@ pred snapId(p *pb.Snapshot_Session) = mk("robust.Id", p.Id.Id, p.Id.Reply)
 //@ pred modesOK(p *pb.Snapshot_Session) = allocated(p.Modes) && forall j int :: 0 <= j && j < len(p.Modes) ==> len(p.Modes[j]) > 0 && p.Modes[j][0] < 122
-//@ pred sessEntryOK(p *pb.Snapshot_Session, i *IRCServer) = modesOK(p) && p != nil && allocated(p) && p.Id != nil && p.IrcPrefix != nil && allocated(p.Id) && allocated(p.IrcPrefix) && allocated(p.LastActivity) && allocated(p.LastNonPing) && allocated(p.LastSolvedCaptcha) && snapId(p) in i.sessions && sessRepr(p, i.sessions[snapId(p)])
+//@ pred sessEntryOK(p *pb.Snapshot_Session, i *IRCServer) = modesOK(p) && p != nil && allocated(p) && p.Id != nil && p.IrcPrefix != nil && allocated(p.Id) && allocated(p.IrcPrefix) && allocated(p.LastActivity) && allocated(p.LastNonPing) && allocated(p.LastSolvedCaptcha) && snapId(p) in i.sessions && sessRepr(p, i.sessions[snapId(p)]) && modesRepr(p, i.sessions[snapId(p)])
 
 // The network configuration inside a snapshot.
 //@ pred cfgRepr(p *pb.Snapshot_Config, c *config.Network) = p != nil && p.Irc != nil && p.Revision == c.Revision && c.SessionExpiration == parsedur(p.SessionExpiration) && c.PostMessageCooloff == parsedur(p.PostMessageCooloff) && p.TrustedBridges == c.TrustedBridges && p.CaptchaUrl == c.CaptchaURL && len(c.CaptchaHMACSecret) == hexlen(p.CaptchaHmacSecret) && (forall k int :: 0 <= k && k < len(c.CaptchaHMACSecret) ==> c.CaptchaHMACSecret[k] == hexbyte(p.CaptchaHmacSecret, k)) && p.CaptchaRequiredForLogin == c.CaptchaRequiredForLogin && p.MaxSessions == c.MaxSessions && p.MaxChannels == c.MaxChannels && (p.Banned != nil ==> c.Banned == p.Banned) && (p.Banned == nil ==> c.Banned != nil && (forall a string :: !(a in c.Banned))) && len(p.Irc.Operators) == len(c.IRC.Operators) && (forall k int :: 0 <= k && k < len(p.Irc.Operators) ==> p.Irc.Operators[k] != nil && p.Irc.Operators[k].Name == c.IRC.Operators[k].Name && p.Irc.Operators[k].Password == c.IRC.Operators[k].Password) && len(p.Irc.Services) == len(c.IRC.Services) && (forall k int :: 0 <= k && k < len(p.Irc.Services) ==> p.Irc.Services[k] != nil && p.Irc.Services[k].Password == c.IRC.Services[k].Password)
@@ -931,9 +933,12 @@ package ircserver
 // creation time and last non-ping activity of a session are set (both are set
 // from the entry's timestamp when the session is created).
 //@ func IRCServer.Marshal
+//@   opt sidx0 = true
 //@   requires state: i != nil && wfLocks(i) && sessShape(i) && i.channels != nil && i.svsholds != nil && i.Config.Banned != nil
 //@   requires legacy-created: forall x robust.Id :: x in i.sessions ==> i.sessions[x].Created > 0 && !i.sessions[x].LastNonPing.IsZero()
-//@   assert@call append#3 : built: callarg1[0] != nil && callarg1[0].Id != nil && callarg1[0].IrcPrefix != nil && snapId(callarg1[0]) == id && session == i.sessions[id] && sessRepr(callarg1[0], session) && modesOK(callarg1[0])
+// user modes are letters: nothing below 'A' is ever set (cmdMode only sets parsed mode letters)
+//@   requires modes-letters: forall x robust.Id, m int :: x in i.sessions && 0 <= m && m < 65 ==> !i.sessions[x].modes[m]
+//@   assert@call append#3 : built: callarg1[0] != nil && callarg1[0].Id != nil && callarg1[0].IrcPrefix != nil && snapId(callarg1[0]) == id && session == i.sessions[id] && sessRepr(callarg1[0], session) && modesOK(callarg1[0]) && modesRepr(callarg1[0], session)
 //@   assert@call append#3 : kept: forall k int :: 0 <= k && k < len(sessions) ==> sessEntryOK(sessions[k], i) && snapId(sessions[k]) != id
 //@   loop range i.sessions
 //@     invariant forall k int :: 0 <= k && k < len(sessions) ==> sessEntryOK(sessions[k], i) && seen(snapId(sessions[k]))
@@ -951,6 +956,7 @@ package ircserver
 //@     invariant forall a int, b int {sessions[a], sessions[b]} :: 0 <= a && a < b && b < len(sessions) ==> snapId(sessions[a]) != snapId(sessions[b])
 //@   loop for mode < 'z'
 //@     invariant forall j int :: 0 <= j && j < len(modes) ==> len(modes[j]) > 0 && modes[j][0] < 122
+//@     invariant 65 <= mode && mode <= 122 && forall m int :: 0 <= m && m < 122 ==> ((exists j int :: 0 <= j && j < len(modes) && modes[j][0] == m) <==> (65 <= m && m < mode && session.modes[m]))
 //@     invariant id in i.sessions && session == i.sessions[id] && session != nil
 //@     invariant forall k int :: 0 <= k && k < len(sessions) ==> sessEntryOK(sessions[k], i) && snapId(sessions[k]) != id && seen(snapId(sessions[k]), "range i.sessions")
 //@     invariant forall x robust.Id :: seen(x, "range i.sessions") && x != id ==> (exists k int :: 0 <= k && k < len(sessions) && snapId(sessions[k]) == x)
@@ -1019,6 +1025,7 @@ package ircserver
 //@     invariant sessin: forall k int :: 0 <= k && k <= rangeindex ==> snapId(snapshot.Sessions[k]) in i.sessions && i.sessions[snapId(snapshot.Sessions[k])] != nil && allocated(i.sessions[snapId(snapshot.Sessions[k])]) && i.sessions[snapId(snapshot.Sessions[k])].Id == snapId(snapshot.Sessions[k]) && i.sessions[snapId(snapshot.Sessions[k])].Nick == snapshot.Sessions[k].Nick && (i.sessions[snapId(snapshot.Sessions[k])].Server <==> snapshot.Sessions[k].Server)
 //@     invariant sessin-only: forall x robust.Id :: x in i.sessions ==> (exists k int :: 0 <= k && k <= rangeindex && snapId(snapshot.Sessions[k]) == x)
 //@     invariant sessrepr: forall k int :: 0 <= k && k <= rangeindex ==> sessRepr(snapshot.Sessions[k], i.sessions[snapId(snapshot.Sessions[k])])
+//@     invariant modes: forall k int :: 0 <= k && k <= rangeindex ==> modesRepr(snapshot.Sessions[k], i.sessions[snapId(snapshot.Sessions[k])])
 // group nicks: the nickname index is rebuilt, not stored
 //@     invariant nicks: wfNicksLoaded(i)
 //@     invariant nicks-owner: forall k int :: 0 <= k && k <= rangeindex && snapshot.Sessions[k].Nick != "" ==> NickToLower(snapshot.Sessions[k].Nick) in i.nicks && i.nicks[NickToLower(snapshot.Sessions[k].Nick)] == i.sessions[snapId(snapshot.Sessions[k])]
@@ -1030,16 +1037,36 @@ package ircserver
 //@   assert@store i.serverSessions#0 : services-new: len(callarg0) == len(i.serverSessions) + 1 && callarg0[len(i.serverSessions)] == s.Id.Id && s.Server && s == snapshot.Sessions[rangeindex+1]
 //@   assert@store i.serverSessions#0 : services-kept: forall k int :: 0 <= k && k <= rangeindex && snapshot.Sessions[k].Server ==> (exists j int :: 0 <= j && j < len(callarg0) && callarg0[j] == snapshot.Sessions[k].Id.Id)
 //@   assert@if newSession.Nick != ""#0 : services-merged: forall k int :: 0 <= k && k <= rangeindex + 1 && snapshot.Sessions[k].Server ==> (exists j int :: 0 <= j && j < len(i.serverSessions) && i.serverSessions[j] == snapshot.Sessions[k].Id.Id)
+// group modes: user modes are decoded letter by letter
+//@   loop range s.Modes
+//@     invariant modes: 0 - 1 <= rangeindex && rangeindex < len(s.Modes) && forall m int :: 0 <= m && m < 122 ==> (modes[m] <==> (exists j int :: 0 <= j && j <= rangeindex && s.Modes[j][0] == m))
+//@   assert@mapupdate i.sessions#0 : modes-built: modesRepr(s, newSession)
+// the loops after the session loop write other mode arrays only
+//@   loop range snapshot.Channels
+//@     invariant modes: forall k int :: 0 <= k && k < len(snapshot.Sessions) ==> modesRepr(snapshot.Sessions[k], i.sessions[snapId(snapshot.Sessions[k])])
+//@   loop range c.Nicks
+//@     invariant modes: forall k int :: 0 <= k && k < len(snapshot.Sessions) ==> modesRepr(snapshot.Sessions[k], i.sessions[snapId(snapshot.Sessions[k])])
+//@   loop range channelNickModes.Mode
+//@     invariant modes: forall k int :: 0 <= k && k < len(snapshot.Sessions) ==> modesRepr(snapshot.Sessions[k], i.sessions[snapId(snapshot.Sessions[k])])
+//@   loop range c.Modes
+//@     invariant modes: forall k int :: 0 <= k && k < len(snapshot.Sessions) ==> modesRepr(snapshot.Sessions[k], i.sessions[snapId(snapshot.Sessions[k])])
+//@   loop range c.Bans
+//@     invariant modes: forall k int :: 0 <= k && k < len(snapshot.Sessions) ==> modesRepr(snapshot.Sessions[k], i.sessions[snapId(snapshot.Sessions[k])])
+//@   loop range snapshot.Svsholds
+//@     invariant modes: forall k int :: 0 <= k && k < len(snapshot.Sessions) ==> modesRepr(snapshot.Sessions[k], i.sessions[snapId(snapshot.Sessions[k])])
 // group config
 //@   loop range snapshot.Config.Irc.Operators
+//@     invariant modes: forall k int :: 0 <= k && k < len(snapshot.Sessions) ==> modesRepr(snapshot.Sessions[k], i.sessions[snapId(snapshot.Sessions[k])])
 //@     invariant config-ops: 0 - 1 <= rangeindex && rangeindex < len(snapshot.Config.Irc.Operators) && len(operators) == len(snapshot.Config.Irc.Operators) && (forall k int :: 0 <= k && k <= rangeindex ==> operators[k].Name == snapshot.Config.Irc.Operators[k].Name && operators[k].Password == snapshot.Config.Irc.Operators[k].Password)
 //@   loop range snapshot.Config.Irc.Services
+//@     invariant modes: forall k int :: 0 <= k && k < len(snapshot.Sessions) ==> modesRepr(snapshot.Sessions[k], i.sessions[snapId(snapshot.Sessions[k])])
 //@     invariant config-ops: len(operators) == len(snapshot.Config.Irc.Operators) && (forall k int :: 0 <= k && k < len(operators) ==> operators[k].Name == snapshot.Config.Irc.Operators[k].Name && operators[k].Password == snapshot.Config.Irc.Operators[k].Password)
 //@     invariant config-svc: 0 - 1 <= rangeindex && rangeindex < len(snapshot.Config.Irc.Services) && len(services) == len(snapshot.Config.Irc.Services) && (forall k int :: 0 <= k && k <= rangeindex ==> services[k].Password == snapshot.Config.Irc.Services[k].Password)
 // what the caller gets (asserted at the successful return)
 //@   assert@return snapshot.LastIncludedIndex, nil#0 : sessin: forall k int :: 0 <= k && k < len(snapshot.Sessions) ==> snapId(snapshot.Sessions[k]) in i.sessions
 //@   assert@return snapshot.LastIncludedIndex, nil#0 : sessin-only: forall x robust.Id :: x in i.sessions ==> (exists k int :: 0 <= k && k < len(snapshot.Sessions) && snapId(snapshot.Sessions[k]) == x)
 //@   assert@return snapshot.LastIncludedIndex, nil#0 : sessrepr: forall k int :: 0 <= k && k < len(snapshot.Sessions) ==> sessRepr(snapshot.Sessions[k], i.sessions[snapId(snapshot.Sessions[k])])
+//@   assert@return snapshot.LastIncludedIndex, nil#0 : modes: forall k int :: 0 <= k && k < len(snapshot.Sessions) ==> modesRepr(snapshot.Sessions[k], i.sessions[snapId(snapshot.Sessions[k])])
 //@   assert@return snapshot.LastIncludedIndex, nil#0 : nicks: wfNicksLoaded(i)
 //@   assert@return snapshot.LastIncludedIndex, nil#0 : nicks-owner: forall x robust.Id :: x in i.sessions && i.sessions[x].Nick != "" ==> NickToLower(i.sessions[x].Nick) in i.nicks && i.nicks[NickToLower(i.sessions[x].Nick)] == i.sessions[x]
 //@   assert@return snapshot.LastIncludedIndex, nil#0 : services: forall x robust.Id :: x in i.sessions && i.sessions[x].Server ==> (exists j int :: 0 <= j && j < len(i.serverSessions) && i.serverSessions[j] == x.Id)
